@@ -98,6 +98,17 @@ CLAIMS = {
         note="PARTIAL: parallel_scan and parallel_sort are covered by oracle runs only (exactly one final pass per element with the right prefix; sorted permutation around the 500/4000 thresholds, ties, "
              "pre-sortedness probe covers every adjacent pair); no theorem about sum_node/final_sum or quick_sort_range::split_range. Cancellation of a reduction is not modelled. The log replayer (Python) is trusted.",
         ref="4/C06"),
+    "C10": dict(
+        technique="Coq proof: sequential refinement of the hash table (hash & mask addressing, growth, lazy recursive rehashing) to a finite map, by an invariant on bucket placement along parent chains; "
+                  "white-box differential tie; gate-driven exploration of the real container with an exhaustive linearizability oracle",
+        text="Proved for every sequence of insert/erase/find with any keys, through any number of doublings and any pattern of rehashed / not yet rehashed buckets: every result equals a finite map's "
+             "(insert succeeds iff absent, erase iff present, find returns the stored value), keys stay unique, every key sits on its parent chain with all deeper buckets still flagged, rehashing a bucket "
+             "changes no key/value. Tie: sequential runs of the real container (hash(k)=k) compared with the model result by result and bucket by bucket (flags and chain order) up to 4096 buckets. "
+             "Concurrency: the real container runs under the atomic-access gate (2-3 threads, incl. pre-filled tables that double during the run) with a map linearizability oracle, per-element accessor "
+             "exclusion bookkeeping, destroyed-under-accessor and leak checks; real threads with a balance / one-winner / exclusion oracle.",
+        note="PARTIAL: the concurrent protocol (bucket/element locks, upgrade and restart paths, check_mask_race) is explored, not proved; the element locks are spin_rw_mutex, whose exclusion is proved under C08. "
+             "Iteration, rehash(), clear(), swap and move are not modelled.",
+        ref="4/C10"),
     "C20": dict(
         technique="Coq proof: exact characterisation of the reachable configurations of the suspend/resume handshake (inductive invariant, all interleavings); real suspend/resume runs with racing resumers under an exactly-once oracle",
         text="For every interleaving of the suspending thread's exchange(suspended)/self-resume with a resume() from anywhere (incl. the suspend callback itself): at most one resume task is pushed, "
